@@ -891,3 +891,94 @@ def oracle_candidate_conf(line, out):
     if int(okv["conf"]) != total:
         return f"confidence {okv['conf']} != configured score of what is reported {total}"
     return None
+
+
+# ------------------------------------------------------------------ correlation arithmetic (C06 / C16 support)
+def oracle_corr(line, out):
+    op, kv = kv_of(line)
+    r = [int(c) for c in kv.get("R", "")]
+    q = [int(c) for c in kv.get("Q", "")]
+    if out.startswith("ERR"):
+        return f"exception {out}"
+    c_s, _, n_s = out.partition(" N=")
+    c, n = ints(c_s), ints(n_s)
+    if len(q) > len(r) or not q:
+        return None
+    if len(c) != len(r) - len(q) + 1:
+        return "correlation has the wrong number of lags"
+    for k in range(len(c)):
+        want = sum(r[k + j] * q[j] for j in range(len(q)))
+        if c[k] != want:
+            return f"correlation at lag {k} is {c[k]}, the label overlap is {want}"
+        if n[k] != sum(r[k:k + len(q)]) + sum(q):
+            return f"normalising factor at lag {k} is wrong"
+        if 2 * c[k] > n[k]:
+            return "normalised correlation above 1"
+        if (2 * c[k] == n[k]) != (r[k:k + len(q)] == q):
+            return f"normalised correlation is 1 at lag {k} although the window is not an exact copy (or vice versa)"
+    return None
+
+
+# ------------------------------------------------------------------ C08 / C01 on joined rows
+def parse_row_kv(s, sep=" "):
+    kv = dict(t.split("=", 1) for t in s.split(sep) if "=" in t)
+    segs = parse_segs(kv.get("SEG", ""))
+    pairs = [(it[1], it[3]) for _, items in segs for it in items if it[0] == "P"]
+    return kv, pairs
+
+
+def valid_pairs(pairs, rev):
+    rs = [p[0] for p in pairs]
+    qs = [p[1] for p in pairs]
+    return (bool(pairs) and all(a < b for a, b in zip(rs, rs[1:]))
+            and all((b < a) if rev else (a < b) for a, b in zip(qs, qs[1:])))
+
+
+def oracle_joinrows(line, out):
+    op, kv = kv_of(line)
+    if out.startswith("ERR"):
+        return f"exception {out}"
+    if out == "None":
+        return None
+    a, pa = parse_row_kv(kv["A"], "~")
+    b, pb = parse_row_kv(kv["B"], "~")
+    j, pj = parse_row_kv(out)
+    if not valid_pairs(pj, j["rev"] == "1"):
+        return "the joined record is not a one-to-one collinear matching with at least one pair"
+    if not set(pj) <= set(pa) | set(pb):
+        return "the joined record has a pair that is in neither part"
+    if (j["q"], j["r"], j["rev"]) != (a["q"], a["r"], a["rev"]):
+        return "the joined record does not keep the query / reference / strand of its parts"
+    return None
+
+
+def oracle_resolverows(line, out):
+    op, kv = kv_of(line)
+    if out.startswith("ERR"):
+        return f"exception {out}"
+    diff = int(kv["diff"])
+    rows = [t for t in kv.get("ROWS", "").split("^") if t]
+    js, _, ss = out.partition(" S=")
+    joined = [t for t in js[2:].split("^") if t]
+    sep = [t for t in ss.split("^") if t]
+    if len(sep) + 2 * len(joined) != len(rows):
+        return f"{len(rows)} rows in, {len(joined)} joined + {len(sep)} un-joined out: a row is lost or duplicated"
+    if any(s not in rows for s in sep):
+        return "an un-joined row is not one of the input rows"
+    parsed = [parse_row_kv(r, "~") for r in rows]
+    for jt in joined:
+        j, pj = parse_row_kv(jt, "~")
+        parts = [(k, p) for (k, p), r in zip(parsed, rows) if k["q"] == j["q"] and k["r"] == j["r"] and r not in sep]
+        if len(parts) != 2:
+            return "a joined row does not come from exactly two rows of the same query and reference"
+        (a, pa), (b, pb) = parts
+        if a["rev"] != b["rev"]:
+            return "rows of different orientation were joined"
+        gap = abs(max(int(a["rs"]), int(b["rs"])) - min(int(a["re"]), int(b["re"])))
+        if gap > diff:
+            return f"rows joined although the reference gap {gap} exceeds maxDifference {diff}"
+        if not valid_pairs(pj, j["rev"] == "1"):
+            return "a joined row is not a one-to-one collinear matching"
+        if not set(pj) <= set(pa) | set(pb):
+            return "a joined row has a pair that is in neither part"
+    return None
